@@ -207,15 +207,28 @@ def trace_plumbing(chk, prog, c):
         return out
     ti = prog.collector_trace_impl() or {"trace_gc": "<context::Context as collect::Trace>::trace_gc",
                                         "trace_gc_weak": "<context::Context as collect::Trace>::trace_gc_weak"}
-    for fn, want, forbid in (
+    # forwarding adapters: every `impl Trace` of the crate other than the collector's own (found by shape: the
+    # wrapper used by DynCollect::dyn_trace today) must forward strong to strong and weak to weak
+    adapters = []
+    ctx_impls = {ti["trace_gc"], ti["trace_gc_weak"]}
+    for im in prog.impls:
+        if im.get("trait") != "collect::Trace":
+            continue
+        items = {it["name"]: norm(it["path"]) for it in im.get("items", [])}
+        if set(items.values()) & ctx_impls:
+            continue
+        if "trace_gc" in items:
+            adapters.append((items["trace_gc"], "collect::Trace::trace_gc", "collect::Trace::trace_gc_weak"))
+        if "trace_gc_weak" in items:
+            adapters.append((items["trace_gc_weak"], "collect::Trace::trace_gc_weak", "collect::Trace::trace_gc"))
+    chk.floor("trace-forwarding-adapters[%s]" % c, len(adapters), 2)
+    for fn, want, forbid in [
             ("<gc::Gc as collect::Collect>::trace", "collect::Trace::trace_gc", "collect::Trace::trace_gc_weak"),
-            ("<gc_weak::GcWeak as collect::Collect>::trace", "collect::Trace::trace_gc_weak", "collect::Trace::trace_gc"),
-            ("<<T as collect::DynCollect>::dyn_trace::TraceWrap as collect::Trace>::trace_gc", "collect::Trace::trace_gc", "collect::Trace::trace_gc_weak"),
-            ("<<T as collect::DynCollect>::dyn_trace::TraceWrap as collect::Trace>::trace_gc_weak", "collect::Trace::trace_gc_weak", "collect::Trace::trace_gc"),
+            ("<gc_weak::GcWeak as collect::Collect>::trace", "collect::Trace::trace_gc_weak", "collect::Trace::trace_gc")] + adapters + [
             (ti["trace_gc"], "context::Context::trace", "context::Context::trace_weak"),
             (ti["trace_gc_weak"], "context::Context::trace_weak", "context::Context::trace"),
             ("<(dyn collect::DynCollect + 'static) as collect::Collect>::trace", "collect::DynCollect::dyn_trace", None),
-            ("<T as collect::DynCollect>::dyn_trace", "collect::Collect::trace", None)):
+            ("<T as collect::DynCollect>::dyn_trace", "collect::Collect::trace", None)]:
         if not chk.anchor(fn, fn in prog.seed_n, "(config %s)" % c):
             continue
         calls = decl_calls(fn)
